@@ -26,6 +26,9 @@ import (
 	"errors"
 	"fmt"
 	"hash/crc32"
+	"io/fs"
+	"os"
+	"path/filepath"
 	"sort"
 	"strings"
 	"sync"
@@ -175,6 +178,72 @@ func vfC14HashKey(s []byte, got uint32) string {
 		return "hash/len%12==0/" + shape
 	default:
 		return fmt.Sprintf("hash/len%%12==%d/mismatch", n%12)
+	}
+}
+
+// vfC14ValidateReference checks the reference lookup3 against ground truth produced by the HDF5
+// reference library: the checksum of every version-2 object header found in the repository's
+// testdata (H5_checksum_metadata == lookup3 over prefix + first chunk). Buffers whose length is a
+// multiple of 12 exercise exactly the tail path (case 12) that Jenkins' published vectors do not.
+func vfC14ValidateReference(r *vkit.Run) {
+	var matched, matched12, files int64
+	_ = filepath.WalkDir("../../testdata", func(p string, d fs.DirEntry, err error) error {
+		if err != nil || d.IsDir() || !(strings.HasSuffix(p, ".h5") || strings.HasSuffix(p, ".hdf5")) {
+			return nil
+		}
+		if info, e := d.Info(); e != nil || info.Size() > 16<<20 {
+			return nil
+		}
+		b, e := os.ReadFile(p)
+		if e != nil {
+			return nil
+		}
+		files++
+		for off := 0; ; {
+			i := bytes.Index(b[off:], []byte("OHDR\x02"))
+			if i < 0 {
+				break
+			}
+			pos := off + i
+			off = pos + 5
+			if pos+6 > len(b) {
+				break
+			}
+			fl := b[pos+5]
+			q := pos + 6
+			if fl&0x20 != 0 {
+				q += 16
+			}
+			if fl&0x10 != 0 {
+				q += 4
+			}
+			n := 1 << (fl & 3)
+			if q+n > len(b) {
+				continue
+			}
+			var sz uint64
+			for k := 0; k < n; k++ {
+				sz |= uint64(b[q+k]) << (8 * k)
+			}
+			q += n
+			if sz > 1<<20 || uint64(q)+sz+4 > uint64(len(b)) {
+				continue
+			}
+			end := q + int(sz)
+			if vfC14Lookup3(b[pos:end], 0) == binary.LittleEndian.Uint32(b[end:]) {
+				matched++
+				if (end-pos)%12 == 0 {
+					matched12++
+				}
+			}
+		}
+		return nil
+	})
+	r.Set("reference_lookup3_validated_on_corpus_ohdr_checksums", matched)
+	r.Set("reference_lookup3_validated_on_corpus_ohdr_checksums_len%12==0", matched12)
+	r.Set("reference_corpus_files_scanned", files)
+	if matched12 == 0 {
+		r.Assume("no reference-library object header with a checksummed length divisible by 12 was found in testdata: the case-12 tail of the reference lookup3 rests on the algorithm text only")
 	}
 }
 
@@ -509,7 +578,9 @@ func (c *vfC14Ctx) enabled() []vfC14Op {
 			}
 		}
 		if !present {
-			ops = append(ops, vfC14Op{vfC14UpdAbs, uint16(n), 0})
+			for i := range cfg.ids {
+				ops = append(ops, vfC14Op{vfC14UpdAbs, uint16(n), uint8(i)})
+			}
 		}
 	}
 	ops = append(ops, vfC14Op{K: vfC14LazyOn}, vfC14Op{K: vfC14LazyOff}, vfC14Op{K: vfC14Force})
@@ -1304,6 +1375,7 @@ func TestVerif_C14(t *testing.T) {
 	r.Assume("incremental rebalancing (background goroutine + ticker) is not exercised here; it belongs to C18")
 	r.Assume("the in-memory image implements io.ReaderAt / Writer / Allocator faithfully (bump allocator, 8-byte aligned)")
 
+	vfC14ValidateReference(r)
 	vfC14HashGrid(t, r)
 
 	names := vfC14Names(t)
